@@ -3239,6 +3239,11 @@ HMCPwrite(accrec_t   *access_rec, /* IN: access record to mess with */
     if (BADFREC(file_rec))
         HGOTO_ERROR(DFE_INTERNAL, FAIL);
 
+    /* the element has a fixed size: a write must end inside it (positions past
+       the end would wrap around into the first chunks) */
+    if (length > (info->length * info->nt_size) - access_rec->posn)
+        HGOTO_ERROR(DFE_BADSEEK, FAIL);
+
     /* should chunk indices be updated with relative_posn?
        or did last operation update it already */
     update_chunk_indices_seek(access_rec->posn, info->ndims, info->nt_size, info->seek_chunk_indices,
